@@ -59,8 +59,11 @@ Proof. vm_compute. reflexivity. Qed.
 Lemma table_verdicts_agree : forallb verdicts_agree lock_table = true.
 Proof. vm_compute. reflexivity. Qed.
 
+(* covered in the source as it stands with the repairs repo_patches/C11-2-fix (m.versionMu around
+   newVersion and merge) and C11-3-fix (d.updateMu around storeAndUpdate and DeleteData) *)
 Definition expected_covered : list string :=
-  ["keyvalue.PutData"; "keyvalue.DeleteData"; "labelmap.CleaveLabel"; "labelmap.ChangeLabelIndex"].
+  ["keyvalue.PutData"; "keyvalue.DeleteData"; "labelmap.CleaveLabel"; "labelmap.ChangeLabelIndex";
+   "neuronjson.storeAndUpdate"; "datastore.newVersion"].
 
 Definition named_site_covered (name : string) : bool :=
   match find_site name with Some s => site_covered s | None => false end.
